@@ -32,6 +32,7 @@ import (
 )
 
 var bins = map[string]string{}
+var lifetimeDeviations int
 
 type toolResult struct {
 	rc  int
@@ -207,7 +208,7 @@ func auditDirBundle(wbn []byte, base *url.URL, files []treeFile) (string, *rbund
 
 // ---------------------------------------------------------------- reference verification of a signatures-section bundle
 
-func verifySignedBundle(wbn []byte, originals map[string][]byte, coveredHost string, leafDER []byte, pub *ecdsa.PublicKey, version string, wantDate int64) string {
+func verifySignedBundle(wbn []byte, originals map[string][]byte, coveredHost string, leafDER []byte, pub *ecdsa.PublicKey, version string, wantDate int64, wantLifetime uint64) string {
 	p, e := rbundle.Extract(wbn)
 	if e != nil {
 		return "independent parser rejects the signed bundle: " + e.Error()
@@ -235,6 +236,9 @@ func verifySignedBundle(wbn []byte, originals map[string][]byte, coveredHost str
 	d, x := ss.MapGet("date"), ss.MapGet("expires")
 	if d == nil || x == nil || d.Major != 0 || x.Major != 0 || x.Arg < d.Arg || x.Arg-d.Arg > 604800 {
 		return "date / expires missing or lifetime above 7 days"
+	}
+	if x.Arg-d.Arg != wantLifetime {
+		lifetimeDeviations++ // counted, not judged: the property only needs the signature to verify (lifetime <= 7 days is checked above)
 	}
 	if wantDate != 0 && int64(d.Arg) != wantDate {
 		return fmt.Sprintf("signed date %d is not the -date given (%d)", d.Arg, wantDate)
@@ -469,15 +473,25 @@ func run20(r *mon.Run) {
 				rs = 4096
 			}
 			signed := wbn + ".signed"
-			sargs := []string{"signatures-section", "-i", wbn, "-o", signed, "-certificate", certCBOR[m], "-privateKey", kf.path, "-validityUrl", "https://example.com/validity", "-expire", "24h", "-miRecordSize", fmt.Sprint(rs)}
+			expire := mon.Pick(g, []string{"1h", "24h", "167h", "168h", "604800s", "1s"})
+			expireSecs := map[string]uint64{"1h": 3600, "24h": 86400, "167h": 167 * 3600, "168h": 604800, "604800s": 604800, "1s": 1}[expire]
+			sargs := []string{"signatures-section", "-i", wbn, "-o", signed, "-certificate", certCBOR[m], "-privateKey", kf.path, "-validityUrl", "https://example.com/validity", "-expire", expire, "-miRecordSize", fmt.Sprint(rs)}
 			var wantDate int64
-			if g.Bool() {
+			if t%4 == 0 {
+				// the largest documented validity, signed "now": the downstream verifier accepts at most 7 days
+				expire, expireSecs = "168h", 604800
+				for i := range sargs {
+					if sargs[i] == "-expire" {
+						sargs[i+1] = expire
+					}
+				}
+			} else if g.Bool() {
 				wantDate = 1500000000 + int64(g.Intn(1e8))
 				sargs = append(sargs, "-date", time.Unix(wantDate, 0).UTC().Format(time.RFC3339))
 			}
 			sres := tool("sign-bundle", passEnv, sargs...)
 			so := "sign-sections:ok"
-			sdet := map[string]any{"tree": t, "key_form": kf.form, "curve": m.key.Curve.Params().BitSize, "record_size": rs, "date": wantDate, "output": tail(sres.out)}
+			sdet := map[string]any{"tree": t, "expire": expire, "key_form": kf.form, "curve": m.key.Curve.Params().BitSize, "record_size": rs, "date": wantDate, "output": tail(sres.out)}
 			if sres.rc != 0 {
 				so = "sign-sections:FAILED"
 				violation(key+":sign-sections", fmt.Sprintf("sign-bundle signatures-section (%s key) rejects gen-bundle's output: %s", kf.form, tail(sres.out)), sdet)
@@ -487,7 +501,7 @@ func run20(r *mon.Run) {
 				for _, ex := range parsed.Exchanges {
 					orig[ex.URL] = ex.Body
 				}
-				if bad := verifySignedBundle(sb, orig, "example.com", m.certs[0].Raw, &m.key.PublicKey, ver, wantDate); bad != "" {
+				if bad := verifySignedBundle(sb, orig, "example.com", m.certs[0].Raw, &m.key.PublicKey, ver, wantDate, expireSecs); bad != "" {
 					so = "sign-sections:DOES-NOT-VERIFY"
 					violation(key+":sign-sections-verify", "bundle signed by sign-bundle signatures-section does not verify: "+bad, sdet)
 				}
@@ -497,7 +511,7 @@ func run20(r *mon.Run) {
 				}
 			}
 			r.Eval(so)
-			r.Distinct(fmt.Sprintf("sign-sections|%s|%s|P-%d|rs%d|date%v|%s", ver, kf.form, m.key.Curve.Params().BitSize, rs, wantDate != 0, so))
+			r.Distinct(fmt.Sprintf("sign-sections|%s|%s|P-%d|rs%d|date%v|%s|%s", ver, kf.form, m.key.Curve.Params().BitSize, rs, wantDate != 0, expire, so))
 			os.Remove(signed)
 			// ---- sign-bundle integrity-block
 			ek := ed.keys[t%len(ed.keys)]
@@ -894,4 +908,5 @@ func run20(r *mon.Run) {
 		os.Remove(out)
 	}
 	r.Note("tool_invocations", invocations)
+	r.Note("signed_lifetime_differs_from_expire_flag(not judged)", lifetimeDeviations)
 }
